@@ -31,3 +31,9 @@ pub fn input_slice_trace(src: &str, ops: &[(usize, Option<usize>)]) -> Vec<(usiz
 pub fn skip_trivia(src: &str) -> Option<usize> {
     crate::lexer::verif_skip_trivia(src)
 }
+
+/// Runs one of the lexer's name scanners on `src` (0 = `type_reference`, 1 = `identifier`,
+/// 2 = `value_reference`) and returns the name together with the number of bytes consumed.
+pub fn scan_name(kind: u8, src: &str) -> Option<(String, usize)> {
+    crate::lexer::verif_scan_name(kind, src)
+}
